@@ -113,7 +113,7 @@ def gen_case(rng, tier, i):
         if rng.random() < 0.4:
             # a bound of exactly zero is a time like any other (the replication start of two of the three programs)
             seq.insert(rng.randint(1, len(seq)), rng.choice(["run_up_to:zero", "run_up_to_including:zero"]))
-        return {"fam": "seq", "clock": clock, "seq": seq}
+        return {"fam": "seq", "clock": clock, "seq": seq, "oneshot": rng.random() < 0.5}
     i -= nrand
     if i < ngate:
         ps = _prefixes(tier)
@@ -185,6 +185,7 @@ def _run_seq(case, ctx):
     where = {"clock": case["clock"], "sequence": case["seq"]}
     pref = ProtoRef(prog, mid)
     h = Harness(prog)
+    h.oneshot = bool(case.get("oneshot"))
     start = tnum(prog, prog["rep"]["start"])
     warm, end = start + tnum(prog, prog["rep"]["warmup"]), start + tnum(prog, prog["rep"]["length"])
     auto = None
